@@ -267,6 +267,31 @@ func zzLockSameExcept(a, b *mvccLock, ttl, minC bool) bool {
 	return ok
 }
 
+// ZZ_C12_pessimistic_rollback: a pessimistic rollback (by key list or by range)
+// removes the transaction's pessimistic lock if its for-update ts is not above
+// the request's, leaves no rollback marker, and otherwise changes nothing.
+func ZZ_C12_pessimistic_rollback() {
+	w := zzNewWorld()
+	k := w.keyAndPrefix()
+	t := w.pickTxn("txn")
+	key := zzKeys[k]
+	r0 := w.raw(key)
+	s0 := w.snapshot()
+	fu := zzU64("fu")
+	var keys [][]byte
+	if zzChoice("form", 2) == 0 {
+		keys = [][]byte{key}
+	}
+	zzAssert(!zzErrs(w.store.PessimisticRollback(nil, nil, keys, t.start, fu)), "prollback.no-error")
+	if r0.lockedBy(t.start) && r0.lock.op == kvrpcpb.Op_PessimisticLock && r0.lock.forUpdateTS <= fu {
+		r1 := w.raw(key)
+		zzAssert(r1.lock == nil, "prollback.lock-removed")
+		zzAssert(len(w.snapshot()) == len(s0)-1, "prollback.no-marker-left")
+		return
+	}
+	zzAssert(zzSame(s0, w.snapshot()), "prollback.otherwise-no-change")
+}
+
 // ZZ_C12_heartbeat: a heartbeat answers max(old ttl, advised ttl), stores it,
 // touches nothing else, and fails (changing nothing) exactly when the primary
 // lock of the transaction is not there.
@@ -563,6 +588,58 @@ func ZZ_C12_scanlock() {
 			n++
 		}
 		zzAssert(n == len(locks), "scanlock.nothing-else-listed")
+	}
+}
+
+// ZZ_C12_resolve: ResolveLock / BatchResolveLock of a transaction, with a commit
+// ts or with 0 (= roll back), turn exactly the locks of that transaction into a
+// commit record of the lock's kind at the commit ts resp. into a rollback
+// marker, and leave every other lock and record alone.
+func ZZ_C12_resolve() {
+	w := zzNewWorld()
+	w.twoKeyState()
+	t := w.pickTxn("txn")
+	cts := zzIte64(zzBool("commit"), t.commit, 0)
+	before := []zzRaw{w.raw(zzKeys[0]), w.raw(zzKeys[1])}
+	if zzChoice("api", 2) == 0 {
+		zzAssert(w.store.ResolveLock(nil, nil, t.start, cts) == nil, "resolve.ok")
+	} else {
+		zzAssert(w.store.BatchResolveLock(nil, nil, map[uint64]uint64{t.start: cts}) == nil, "resolve.batch-ok")
+	}
+	for k := range zzKeys {
+		r0, r1 := before[k], w.raw(zzKeys[k])
+		if !r0.lockedBy(t.start) {
+			zzAssert((r0.lock == nil) == (r1.lock == nil), "resolve.foreign-lock-kept")
+			if r0.lock != nil {
+				zzAssert(zzLockSameExcept(r0.lock, r1.lock, false, false), "resolve.foreign-lock-unchanged")
+			}
+			zzAssert(len(r0.vals) == len(r1.vals), "resolve.unlocked-key-untouched")
+			continue
+		}
+		zzAssert(r1.lock == nil, "resolve.lock-removed")
+		zzAssert(len(r1.vals) == len(r0.vals)+1, "resolve.one-record-added")
+		n := 0
+		for i := range r1.vals {
+			v := r1.vals[i]
+			if v.startTS != t.start {
+				continue
+			}
+			n++
+			if cts == 0 {
+				zzAssert(zzAnd(v.valueType == typeRollback, v.commitTS == t.start), "resolve.rollback-marker")
+				continue
+			}
+			zzAssert(v.commitTS == cts, "resolve.commit-ts")
+			switch r0.lock.op {
+			case kvrpcpb.Op_Put:
+				zzAssert(v.valueType == typePut && bytes.Equal(v.value, r0.lock.value), "resolve.put-committed")
+			case kvrpcpb.Op_Del:
+				zzAssert(v.valueType == typeDelete, "resolve.delete-committed")
+			default:
+				zzAssert(v.valueType == typeLock, "resolve.lock-record-committed")
+			}
+		}
+		zzAssert(n == 1, "resolve.exactly-one-record-of-the-transaction")
 	}
 }
 
